@@ -2,7 +2,7 @@ SPECIFICATION Spec
 CONSTANTS Family = "getwith"
           NConcrete = 1
           Symbols = {"*"}
-          MaxPairs = 2
+          MaxPairs = 1
 INVARIANT Canonical
 INVARIANT DictFirstIsNatural
 INVARIANT DictOrderIrrelevant
